@@ -8,6 +8,7 @@ from props import c02, c04
 from vlib import Result
 
 ID = "C09"
+HARNESS_BINS = ["vharness_custom"]
 LEAN_MODULES = ["NdInterp.Props.C09", "NdInterp.Props.C14"]
 THEOREM_FILES = [("NdInterp/Props/C09.lean", "C09_")]
 RULE = ("instantiations Dq in {Ix0..Ix4 static, IxDyn rank 0..3} x D in {Ix1..Ix6 static, IxDyn} for Interp1D (Linear, CubicSpline) and "
@@ -301,4 +302,20 @@ def extra(rng, tier):
             if canon(rs.vals) != want:
                 fails.append({"line": lines[b], "impl": outs[b][:300],
                               "required": f"block {idx} of interp_array must equal interp(q[{idx}]) = {rs.vals} (case `{lines[s][:200]}`), got {want}"})
-    return {"nontrivial": checked, "evaluations": len(lines), "failures": fails[:20], "hist": {"groups": len(groups), "element_comparisons": checked}}
+    # entry-point agreement for *user-defined* strategies (seed C09-r9m1: an up-front range validation of n-d batches keyed on a new trait
+    # method with a default body — strategies implemented outside the crate that answer out-of-range queries get OutOfBounds from the
+    # n-d / dynamic batch entry points only): the recording-strategy scenario drives every entry point with the same queries
+    nc = gen.N(tier, 150, 4000)
+    seed_c = rng.randint(1, 2 ** 31)
+    out_c = vlib.run_sub(["custom", seed_c, nc])
+    summ = None
+    for l in out_c:
+        if l.startswith("FAIL"):
+            fails.append({"line": f"vharness_custom {seed_c} {nc}", "impl": l[:800],
+                          "required": "every entry point must hand a user-defined strategy's answers (or its error) through unchanged, one call per query element"})
+        elif l.startswith("SUMMARY"):
+            summ = l
+    if summ is None:
+        fails.append({"line": f"vharness_custom {seed_c} {nc}", "impl": "no SUMMARY", "required": "the custom-strategy scenario must complete"})
+    return {"nontrivial": checked, "evaluations": len(lines) + nc, "failures": fails[:20],
+            "hist": {"groups": len(groups), "element_comparisons": checked, "custom_strategy_cases": nc}}
